@@ -116,7 +116,7 @@ impl Scenario for C13 {
             let t = if rng.chance(1, 60) { f64::NAN } else { t };
             let k = if rng.chance(1, 2) { kind_bias } else { rng.below(4) };
             match k {
-                0 => Op::new("add_t", &[t, *rng.pick(&[500.0, 300.0, 5.0, 1e6]), rng.below(2) as f64]),
+                0 => Op::new("add_t", &[t, *rng.pick(&[500.0, 300.0, 5.0, 1e6, 500.0, f64::NAN, f64::INFINITY, 0.0, -1.0]), rng.below(2) as f64, *rng.pick(&[4.0, 4.0, 3.0, 7.0])]),
                 1 => Op::new("add_d", &[t, *rng.pick(&[1.0, 2.0, 0.5, 1.0, 0.0, 0.25, 0.25000000000000017, f64::NAN, f64::INFINITY, 2.0, 1.0]), if rng.chance(1, 4) { 0.0 } else { 1.0 }]),
                 2 => Op::new("add_e", &[t, rng.below(2) as f64, *rng.pick(&[1.0, 1.0, 2.0, 0.0, 0.25, 0.25000000000000017, f64::NAN, f64::INFINITY, 2.0, 1.0])]),
                 _ => Op::new("add_s", &[t, rng.below(4) as f64, *rng.pick(&[100.0, 50.0, 100.0, 120.0, -5.0]), rng.below(2) as f64]),
@@ -192,8 +192,9 @@ impl Scenario for C13 {
                 "add_t" => {
                     let bl = op.arg(1);
                     let omit = op.arg(2) != 0.0;
-                    cp.add(TimingPoint { time: t, beat_len: bl, omit_first_bar_line: omit, time_signature: TimeSignature::new_simple_quadruple() });
-                    m.add_t(MT { time: t, beat_len: bl, omit, sig: 4 });
+                    let sig = if op.a.len() > 3 { op.iarg(3).clamp(1, 64) as i32 } else { 4 };
+                    cp.add(TimingPoint { time: t, beat_len: bl, omit_first_bar_line: omit, time_signature: TimeSignature::new(sig).unwrap_or_else(|_| TimeSignature::new_simple_quadruple()) });
+                    m.add_t(MT { time: t, beat_len: bl, omit, sig: sig as u32 });
                 }
                 "add_d" => {
                     let (sv, ticks) = (op.arg(1), op.arg(2) != 0.0);
@@ -289,7 +290,7 @@ fn check_lists(cp: &ControlPoints, m: &MC, i: usize, op: &Op) -> Result<(), Viol
     strictly("difficulty", cp.difficulty_points.iter().map(|p| p.time).collect())?;
     strictly("effect", cp.effect_points.iter().map(|p| p.time).collect())?;
     strictly("sample", cp.sample_points.iter().map(|p| p.time).collect())?;
-    let ok_t = cp.timing_points.len() == m.t.len() && cp.timing_points.iter().zip(&m.t).all(|(a, b)| a.time.to_bits() == b.time.to_bits() && a.beat_len.to_bits() == b.beat_len.to_bits() && a.omit_first_bar_line == b.omit);
+    let ok_t = cp.timing_points.len() == m.t.len() && cp.timing_points.iter().zip(&m.t).all(|(a, b)| a.time.to_bits() == b.time.to_bits() && a.beat_len.to_bits() == b.beat_len.to_bits() && a.omit_first_bar_line == b.omit && a.time_signature.numerator.get() == b.sig);
     let ok_d = cp.difficulty_points.len() == m.d.len() && cp.difficulty_points.iter().zip(&m.d).all(|(a, b)| a.time.to_bits() == b.time.to_bits() && a.slider_velocity.to_bits() == b.sv.to_bits() && a.generate_ticks == b.ticks);
     let ok_e = cp.effect_points.len() == m.e.len() && cp.effect_points.iter().zip(&m.e).all(|(a, b)| a.time.to_bits() == b.time.to_bits() && a.kiai == b.kiai && a.scroll_speed.to_bits() == b.scroll.to_bits());
     let ok_s = cp.sample_points.len() == m.s.len() && cp.sample_points.iter().zip(&m.s).all(|(a, b)| a.time.to_bits() == b.time.to_bits() && a.sample_bank as u8 == b.bank && a.sample_volume == b.vol && a.custom_sample_bank == b.custom);
